@@ -100,7 +100,12 @@ def tool(policy_file, access_file, apply_rule, is_admin=False,
 
     if apply_rule:
         key = apply_rule
-        rule = rules[apply_rule]
+        try:
+            rule = rules[apply_rule]
+        except KeyError:
+            # No such rule and no usable default rule: the library denies
+            print("failed: %s" % key)
+            return
         _try_rule(key, rule, target_data, access_data, enforcer)
         return
 
